@@ -3,13 +3,14 @@ from .. import cases, monitors, oracles
 from . import _align_common as ac
 
 TITLE = "Best alignment has minimal disorder among all alignments"
-DECIDING = ["M-OPT"]
+DECIDING = ["M-OPT", "M-SESSION"]
 LEVEL = "exploration"
 RULE = ("seeded random continua up to 2x9, 3x9, 4x5, 5x3 units x pooled dissimilarities (every class; alpha/beta "
         "incl. 0; delta_empty != 1) x both MIP back-ends, each compared with an unpruned exact optimum (bitmask "
         "dynamic programme <= 14 units, HiGHS MILP, assignment algorithm for 2 annotators); thorough tier adds the "
         "complete grids '2 annotators x <=3 units' (6 segments x 2 labels) and '3 annotators x <=2 units' (6 "
-        "segments); non-trivial = at least 2 units and 2 non-empty annotators; distinct by SHA-1 of the case")
+        "segments); 10 % of the random cases are editing sessions (compute, edit the same continuum object, compute again); "
+        "non-trivial = at least 2 units and 2 non-empty annotators; distinct by SHA-1 of the case")
 ASSUMPTIONS = [
     "pair costs are read from the dissimilarity's compiled d_mat on arrays built by the harness (a formula error "
     "is C04's business and affects both sides equally); the pair mean, the candidate enumeration (no pruning) and "
@@ -24,10 +25,28 @@ def plan(tier, seed):
 
 
 def check_case(ctx, case):
+    if "session" in case:
+        # one continuum object and one dissimilarity object: compute, edit, compute again (stale caches show here)
+        _, pool = ac.setup(ctx)
+        continuum = cases.build_continuum(case["continuum"])
+        for op in [None] + case["session"]:
+            if op is not None:
+                ac.apply_edit(continuum, op)
+            if not continuum or len(continuum.annotators) < 2:
+                continue
+            ctx.count("M-SESSION")
+            step = {"continuum": cases.spec_of(continuum), "dissim": case["dissim"], "backend": case["backend"], "want": "auto"}
+            _check(ctx, step, continuum)
+        return
+    _check(ctx, case, None)
+
+
+def _check(ctx, case, continuum):
     spy, pool = ac.setup(ctx)
     cspec, dspec = case["continuum"], case["dissim"]
     dissim = pool.get(dspec)
-    continuum = cases.build_continuum(cspec)
+    if continuum is None:
+        continuum = cases.build_continuum(cspec)
     try:
         alignment, solvers = ac.call_alignment(continuum, dissim, case["backend"], "best", spy)
     except Exception as e:
@@ -73,6 +92,9 @@ def run(ctx):
         if ctx.out_of_time():
             break
         case = ac.gen_oracle_case(ctx, dspecs)
+        if ctx.rng.random() < 0.1 and cases.spec_num_units(case["continuum"]) <= 12:
+            labels = cases.dissim_labels(case["dissim"]) or cases.LABELS_SMALL
+            case["session"] = ac.gen_edit_ops(ctx.rng, case["continuum"], labels, ctx.rng.randint(2, 4))
         cs = case["continuum"]
         nonempty = sum(1 for us in cs["ann"].values() if us)
         ctx.begin_case(case, nontrivial=cases.spec_num_units(cs) >= 2 and nonempty >= 2)
